@@ -143,13 +143,13 @@ def run(R):
     R.describe('C03.R3', 'length-prefixed message layout: flag byte = is_some(encoding) as u8 (so 0 or 1), big-endian 4-byte length of the payload (C01.R1 instances re-evaluated under this id)')
     with R.guard('C03.R3'):
         fe = tonic.body('codec::encode::finish_encoding')
-        puts = [(bb, t) for bb, t in fe.calls(pat='BufMut::put_')]
-        R.eq([t['name'] for bb, t in puts], ['put_u8', 'put_u32'], 'C03.R3', 'prefix-writes', site(fe), 'prefix write calls')
-        if len(puts) == 2:
-            flag = fe.origin(puts[0][1]['args'][1])
-            R.check(flag[0] == 'cast' and is_call(strip_refs(flag[2]), name='is_some'), 'C03.R3', 'flag-is-bool-cast', site(fe, puts[0][0]), 'flag = %s (a bool cast: 0 or 1)' % show(flag))
-            ln = fe.origin(puts[1][1]['args'][1])
-            R.check('SubWithOverflow' in show(ln) and 'const(%d)' % W['header_size'] in show(ln), 'C03.R3', 'length=payload', site(fe, puts[1][0]), 'length = %s' % show(ln))
+        pw = mirlib.prefix_writes(fe)
+        R.eq([(w, e) for bb, w, e, v, t in pw], [(1, 'be'), (4, 'be')], 'C03.R3', 'prefix-writes', site(fe), 'prefix writes as (width, byte order)')
+        if len(pw) == 2:
+            flag = pw[0][3]
+            R.check(flag[0] == 'cast' and is_call(strip_refs(flag[2]), name='is_some'), 'C03.R3', 'flag-is-bool-cast', site(fe, pw[0][0]), 'flag = %s (a bool cast: 0 or 1)' % show(flag))
+            ln = pw[1][3]
+            R.check('SubWithOverflow' in show(ln) and 'const(%d)' % W['header_size'] in show(ln), 'C03.R3', 'length=payload', site(fe, pw[1][0]), 'length = %s' % show(ln))
 
     # ---------------------------------------------------------------- R4 announced encoding
     R.describe('C03.R4', 'the encoding announced in grpc-encoding is the one handed to the encoder, whose flag is is_some(effective encoding); tokens/codecs per spec table')
